@@ -117,6 +117,8 @@ def compare(res: Res, p: dict, r0, src0: str, knobs: list[str], rng: random.Rand
                     files1[k] = files1[k].rstrip("\n")
                 elif c < 0.45:
                     files1[k] = "\n\n" + files1[k] + "\n\n"
+                elif c < 0.6:
+                    files1[k] = files1[k].replace("\n", "\r\n")      # the included file saved with CR LF line ends
     r1 = assemble(src1, files=files1 or None, rom=p.get("rom"))
     names = knobs + (["include"] if include else [])
     res.case(src1, r0.ok and src1 != src0)
